@@ -58,20 +58,21 @@ type Profile struct {
 	TickModes                                                    []string
 	StallP                                                       float64 // probability that a statement gets an in-statement stall directive
 	// images
-	Boundary      int // number of boundary images per run
-	WalStmts      int // number of statements whose every log event gets an image
-	FlushImgs     int // number of flush images
-	ContStmts     [2]int
-	NestP         float64 // probability that a continuation takes nested images
-	MaxDepth      int
-	FinalClose    float64
-	CheckEvery    int
-	TreeEvery     int
-	ForceFlush    bool
-	FlushMargins  []int
-	EnumFlush     bool // thorough: enumerate every subset of small flushes
-	BigInsertOnly bool // growth runs: mostly inserts into one table
-	WideInserts   bool // every INSERT carries MaxRows rows
+	Boundary        int  // number of boundary images per run
+	WalStmts        int  // number of statements whose every log event gets an image
+	StrictFlushOnly bool // flush images only of the classes the engine is expected to survive (everything but C04)
+	FlushImgs       int  // number of flush images
+	ContStmts       [2]int
+	NestP           float64 // probability that a continuation takes nested images
+	MaxDepth        int
+	FinalClose      float64
+	CheckEvery      int
+	TreeEvery       int
+	ForceFlush      bool
+	FlushMargins    []int
+	EnumFlush       bool // thorough: enumerate every subset of small flushes
+	BigInsertOnly   bool // growth runs: mostly inserts into one table
+	WideInserts     bool // every INSERT carries MaxRows rows
 }
 
 type gen struct {
@@ -763,6 +764,13 @@ func (g *gen) stmtRaw(db *MDB, t *MTable) Stmt {
 		if g.r.Chance(0.45) {
 			q = g.composeSelect(db, t, other)
 		}
+		if g.pf.RawMutations && g.r.Chance(0.18) {
+			if g.r.Chance(0.6) {
+				q = g.composeUpdate(t)
+			} else {
+				q = g.composeInsert(t)
+			}
+		}
 		// nested-loop joins over grown tables run for minutes without
 		// touching a single seam: keep the pair count bounded
 		if nj := strings.Count(q, "JOIN"); nj > 0 {
@@ -782,6 +790,162 @@ func (g *gen) stmtRaw(db *MDB, t *MTable) Stmt {
 			return Stmt{Kind: KRawSQL, SQL: q}
 		}
 	}
+}
+
+// oddName: a column name as written by a careless user - mostly right,
+// sometimes in another letter case, unknown, or a reserved-looking word.
+func (g *gen) oddName(t *MTable) (string, *Col) {
+	c := &t.Cols[g.r.Intn(len(t.Cols))]
+	switch x := g.r.Intn(25); {
+	case x == 0:
+		return strings.ToUpper(c.Name), nil
+	case x == 1:
+		return strings.ToUpper(c.Name[:1]) + c.Name[1:], nil
+	case x == 2:
+		return "nosuch", nil
+	}
+	return c.Name, c
+}
+
+func rawLit(v Val) string {
+	switch {
+	case v.IsNull():
+		return "''"
+	case v.K == "s":
+		return "'" + strings.Map(func(r rune) rune {
+			if r == '\'' || r < 32 || r > 126 {
+				return 'q'
+			}
+			return r
+		}, string(v.S)) + "'"
+	case v.K == "b":
+		if v.B {
+			return "TRUE"
+		}
+		return "FALSE"
+	}
+	return fmt.Sprint(v.I)
+}
+
+// composeUpdate builds an UPDATE clause by clause: 1-3 SET items over right,
+// mis-cased, unknown or repeated column names, with values of the right type,
+// the wrong type, out of range, or sized so that the first matching row still
+// fits and a later, wider one does not (the statement is then refused at a
+// later row and takes its earlier rows back). Outcome unmodelled: C18 only.
+func (g *gen) composeUpdate(t *MTable) string {
+	r := g.r
+	where := ""
+	var w *Cond
+	if len(t.Rows) > 0 && r.Chance(0.7) {
+		r0 := t.Rows[r.Intn(len(t.Rows))]
+		op := []string{">=", "=", "<=", "!="}[r.Intn(4)]
+		w = &Cond{Cmps: []Cmp{{"k", op, r0.Vals[0]}}}
+		where = fmt.Sprintf(" WHERE k %s %s", op, rawLit(r0.Vals[0]))
+	}
+	n := r.Range(1, 3)
+	var items []string
+	for i := 0; i < n; i++ {
+		name, c := g.oddName(t)
+		if c == nil {
+			c = &t.Cols[r.Intn(len(t.Cols))]
+		}
+		var v string
+		switch x := r.Intn(10); {
+		case x == 0: // wrong type
+			v = []string{"'x'", "TRUE", "7"}[r.Intn(3)]
+		case x == 1 && c.Type == TInt:
+			v = "3000000000"
+		case x <= 4 && c.Type == TVarchar:
+			// exactly fits the first matching row
+			ci := 0
+			for j := range t.Cols {
+				if t.Cols[j].Name == c.Name {
+					ci = j
+				}
+			}
+			first := -1
+			for _, row := range t.Rows {
+				if w != nil && !t.match(w, row) {
+					continue
+				}
+				vals := append([]Val(nil), row.Vals...)
+				vals[ci] = Str("")
+				first = EncSize(t.Cols, vals)
+				break
+			}
+			ln := r.Range(0, 40)
+			if first >= 0 && MaxRowBytes-first > 0 {
+				ln = MaxRowBytes - first - r.Intn(2)*r.Intn(12)
+			}
+			v = "'" + strings.Repeat("u", ln) + "'"
+		default:
+			switch c.Type {
+			case TVarchar:
+				v = "'" + strings.Repeat("v", r.Range(0, 20)) + "'"
+			case TBool:
+				v = []string{"TRUE", "FALSE"}[r.Intn(2)]
+			default:
+				v = fmt.Sprint(r.Intn(1000))
+			}
+		}
+		if i > 0 && r.Chance(0.08) {
+			items = append(items, items[r.Intn(len(items))])
+			continue
+		}
+		items = append(items, name+" = "+v)
+	}
+	return fmt.Sprintf("UPDATE %s SET %s%s", t.Name, strings.Join(items, ", "), where)
+}
+
+// composeInsert builds an INSERT with a column list that may be permuted,
+// partial, mis-cased, repeated or unknown, and 1-4 rows of which a later one
+// may be invalid. Outcome unmodelled: C18 only.
+func (g *gen) composeInsert(t *MTable) string {
+	r := g.r
+	var names []string
+	var cols []*Col
+	perm := r.Range(1, len(t.Cols))
+	for i := 0; i < perm; i++ {
+		name, c := g.oddName(t)
+		if c == nil {
+			c = &t.Cols[r.Intn(len(t.Cols))]
+		}
+		names = append(names, name)
+		cols = append(cols, c)
+	}
+	nrows := r.Range(1, 4)
+	bad := -1
+	if r.Chance(0.5) {
+		bad = r.Intn(nrows)
+	}
+	var rows []string
+	for i := 0; i < nrows; i++ {
+		var vals []string
+		for _, c := range cols {
+			var v string
+			switch c.Type {
+			case TVarchar:
+				v = "'" + strings.Repeat("w", r.Range(0, 30)) + "'"
+			case TBool:
+				v = []string{"TRUE", "FALSE"}[r.Intn(2)]
+			default:
+				v = fmt.Sprint(r.Intn(100000))
+			}
+			if i == bad && r.Chance(0.5) {
+				v = []string{"'x'", "TRUE", "5000000000", "'" + strings.Repeat("z", 420) + "'"}[r.Intn(4)]
+			}
+			vals = append(vals, v)
+		}
+		if i == bad && r.Chance(0.2) {
+			vals = append(vals, "1")
+		}
+		rows = append(rows, "("+strings.Join(vals, ", ")+")")
+	}
+	list := ""
+	if r.Chance(0.8) {
+		list = " (" + strings.Join(names, ", ") + ")"
+	}
+	return fmt.Sprintf("INSERT INTO %s%s VALUES %s", t.Name, list, strings.Join(rows, ", "))
 }
 
 // composeSelect builds a SELECT clause by clause (select list, FROM with
@@ -1109,9 +1273,52 @@ func (g *gen) genCont(m *Model, depth int) *Plan {
 			g2 := &gen{r: g.r, pf: pf, m: m2, tags: sub.tags, ntab: sub.ntab, ndb: sub.ndb}
 			cont.Images = append(cont.Images, ImageSel{Site: SiteBoundary, Stmt: at, Cont: g2.genCont(m2, depth+1)})
 		} else {
-			cont.Images = append(cont.Images, ImageSel{Site: SiteFlush, Stmt: -2, N: 0, SubsetSeed: g.r.U64() | 1, Cont: g.genCont(m, depth+1)})
+			cont.Images = append(cont.Images, ImageSel{Site: SiteFlush, Stmt: -2, N: 0, SubsetSeed: g.r.U64() | 1, Cont: g.genCont(m, depth+1), OnlyStrict: pf.StrictFlushOnly})
 		}
 	}
+	return cont
+}
+
+// seedForSubsetMode returns a subset seed whose first draw selects the given
+// mode of captureFlush (1 = all pages, no header).
+func seedForSubsetMode(r *Rng, mode uint64) uint64 {
+	for {
+		s := r.U64() | 1
+		t := s
+		if splitmix(&t)%4 == mode {
+			return s
+		}
+	}
+}
+
+// hotCont: continuation that inserts into the named table right after
+// recovery and crashes again at once (no tick in between), then goes on.
+func (g *gen) hotCont(m *Model, table string) *Plan {
+	db := m.CurDB()
+	if db == nil {
+		return nil
+	}
+	t := db.Table(table)
+	if t == nil && len(db.Tables) > 0 {
+		t = db.Tables[g.r.Intn(len(db.Tables))]
+	}
+	if t == nil {
+		return nil
+	}
+	sub := &gen{r: g.r, pf: g.pf, m: m.Clone(), tags: map[string]int64{}, ntab: g.ntab + 100, ndb: g.ndb + 10}
+	for k, v := range g.tags {
+		sub.tags[k] = v + 1000
+	}
+	sdb := sub.m.CurDB()
+	st := sub.stmtInsert(sdb, sdb.Table(t.Name), g.r.Range(1, 3))
+	e := sub.m.Predict(&st)
+	if !e.OK {
+		return nil
+	}
+	e.Apply(sub.m)
+	cont := &Plan{Stmts: []Stmt{st}}
+	g2 := &gen{r: g.r, pf: g.pf, m: sub.m, tags: sub.tags, ntab: sub.ntab, ndb: sub.ndb}
+	cont.Images = []ImageSel{{Site: SiteBoundary, Stmt: 0, Cont: g2.genCont(sub.m, 2)}}
 	return cont
 }
 
@@ -1236,6 +1443,25 @@ func Generate(pf *Profile, seed uint64) *Plan {
 		if p.Final == "close" {
 			cands = append(cands, len(stmts), len(stmts))
 		}
+		// a tick right after a refused statement: whatever the refusal left
+		// behind in the cache goes to the file now (refuse-then-tear)
+		refusedBefore := func(i int) bool {
+			if i < 1 || i > len(stmts) {
+				return false
+			}
+			s := stmts[i-1]
+			switch s.Kind {
+			case KInsert, KUpdate, KDelete, KCreate:
+				e := models[i-1].Predict(&s)
+				return !e.OK && !e.Unchecked
+			}
+			return false
+		}
+		for _, d := range p.Directives {
+			if d.At < 0 && refusedBefore(d.Stmt) {
+				cands = append(cands, d.Stmt, d.Stmt, d.Stmt)
+			}
+		}
 		for c := 0; c < pf.FlushImgs && len(cands) > 0; c++ {
 			i := cands[r.Intn(len(cands))]
 			st := models[len(stmts)]
@@ -1245,12 +1471,22 @@ func Generate(pf *Profile, seed uint64) *Plan {
 					st = models[i+1]
 				}
 			}
-			sel := ImageSel{Site: SiteFlush, Stmt: i, N: r.Intn(2), SubsetSeed: r.U64() | 1, Cont: g.genCont(st, 1)}
+			sel := ImageSel{Site: SiteFlush, Stmt: i, N: r.Intn(2), SubsetSeed: r.U64() | 1, Cont: g.genCont(st, 1), OnlyStrict: pf.StrictFlushOnly}
 			if r.Chance(0.1) {
 				sel.SubsetSeed = 0
 				sel.All = true
 			} else if pf.EnumFlush && r.Chance(0.5) {
 				sel.Enumerate = true
+			}
+			if refusedBefore(i) && i < len(stmts) && stmts[i].Kind != KCreate && r.Chance(0.6) {
+				// every page of that flush but not the header; after recovery
+				// the first thing is an INSERT into the table the refused
+				// statement named, and the process dies again at once
+				sel.N, sel.All, sel.Enumerate = 0, false, false
+				sel.SubsetSeed = seedForSubsetMode(r, 1)
+				if hc := g.hotCont(st, stmts[i-1].Table); hc != nil {
+					sel.Cont = hc
+				}
 			}
 			p.Images = append(p.Images, sel)
 		}
